@@ -99,7 +99,10 @@ pub fn run(op: &str, a: &[&str]) -> Option<Out> {
         // memratio <PI x10> <z> <alpha> <size>
         "memratio" => {
             let pi = parse_pi(&a[0..PI_TOKENS]);
-            Out::Ok(hx(&pi.get_public_memory_product_ratio(felt(a[10]), felt(a[11]), felt(a[12]))))
+            match pi.get_public_memory_product_ratio(felt(a[10]), felt(a[11]), felt(a[12])) {
+                Some(v) => Out::Ok(hx(&v)),
+                None => Out::Err("None".into()),
+            }
         }
         // pihash <PI x10> <n_verifier_friendly_commitment_layers>
         "pihash" => {
